@@ -79,11 +79,8 @@ class CollectionAttrMutator(metaclass=ABCMeta):
                 and collection is not None
                 and (
                     self.attr_spec.is_masked
-                    or getattr(
-                        getattr(instance, "__spec_class__", None),
-                        "invalidation_map",
-                        None,
-                    )
+                    or hasattr(instance, "__spec_class__")
+                    and instance.__spec_class__.invalidation_map_for(type(instance))
                 )
             ):
                 # The collection held by the instance is about to be edited, and
